@@ -70,7 +70,7 @@ Definition h_script (ca : cache) (parts : list frame) (oracle : option frame) : 
             match rest with
             | [] => (r_err, ca)
             | _ => (FArray (map (fun a => match str_arg a with
-                                         | Some h => FInt (if amem h ca then 1 else 0)
+                                         | Some h => FInt (if amem (lower h) ca then 1 else 0)   (* 0f156f9 *)
                                          | None => FInt 0
                                          end) rest), ca)
             end
@@ -81,6 +81,26 @@ Definition h_script (ca : cache) (parts : list frame) (oracle : option frame) : 
           else (r_err, ca)
       end
   | _ => (r_err, ca)
+  end.
+
+(** EVAL's effect on the cache; None = the digest reported for the source is inadmissible *)
+Definition eval_caches (ca : cache) (parts : list frame) (oracle : option frame) : option cache :=
+  match parts with
+  | _ :: a :: _ =>
+      match str_arg a with
+      | None => Some ca
+      | Some src =>
+          if existsb (fun e => beq (snd e) src) ca then Some ca else    (* contains_key(sha1(src)) *)
+          match compile src with
+          | CompYes =>
+              match oracle with
+              | Some (FBulk sha) => if sha_consistent ca sha src then Some (aset sha src ca) else None
+              | _ => None
+              end
+          | _ => Some ca
+          end
+      end
+  | _ => Some ca
   end.
 
 (** process_frame would reach process_normal_command *)
@@ -104,7 +124,8 @@ Definition h_evalsha (t : Z) (s : server) (c : Z) (dbi : Z) (ca : cache) (parts 
   | _ :: h :: (_ :: _) as tail =>
       match str_arg h with
       | None => (r_err, s)
-      | Some sha =>
+      | Some sha0 =>
+          let sha := lower sha0 in                           (* the digest is not case sensitive (0f156f9) *)
           match alookup sha ca with
           | None => (FError (bs "NOSCRIPT"), s)
           | Some src =>
@@ -139,6 +160,13 @@ Definition lua_op (st : lua_state) (op : list tok) : list tok * lua_state :=
                 if beq command (bs "SCRIPT") then
                   match h_script ca parts oracle with
                   | (r, ca') => (enc_frame (canon_reply command r), ((s, ob, pend), ca'))
+                  end
+                else if beq command (bs "EVAL") then
+                  (* cache_evaluated_script (0f156f9): before the handler runs, a script that is valid UTF-8,
+                     not yet cached and compiles is added to the cache; its digest is the oracle *)
+                  match eval_caches ca parts oracle with
+                  | Some ca' => match srv_op2 (s, ob, pend) op with (o, sp) => (o, (sp, ca')) end
+                  | None => ([TB (bs "BADORACLE")], st)
                   end
                 else if beq command (bs "EVALSHA") then
                   match h_evalsha t s c (match zlookup c (s_conns s) with Some cn => c_db cn | None => 0 end) ca parts with
